@@ -51,6 +51,9 @@ def cfg_list(tier, seed):
     c.append(dict(name="single-n2", streams=[S(0o1, X, 65, 2)], strays=False))
     c.append(dict(name="single-n3", streams=[S(0o1, X, 65, 3)], strays=False))
     c.append(dict(name="small-type-n3", streams=[S(0o1, X, 3, 3)], strays=False))
+    if q:
+        # the largest message of the quantifier (7 fragments, 149 bytes - more than the 144 a node's own sender produces)
+        c.append(dict(name="single-n7", streams=[S(0o1, X, 65, 7)], strays=False, kinds=("next", "skip", "twice")))
     if not q:
         for n in (5, 6, 7):
             c.append(dict(name="single-n%d" % n, streams=[S(0o1, X, 65, n)], strays=False))
@@ -370,12 +373,14 @@ def w_end_to_end(item, rep):
     """Real sender -> (real router ->) real receiver on the simulated air (threaded world, C05's harness):
     whatever reaches an application queue must be byte-for-byte a message that was sent, with its type
     and origin - nothing else (no protocol frame, no shortened message) may be handed to any application.
-    Delivery itself (liveness) is C05's business and is not judged here."""
+    Delivery itself (liveness) is C05's business and is not judged here.  Cases with `lose`: two messages in a row through
+    a relay that loses a subset of the frames it forwards."""
     from . import c05
     seed, cases = item
     for case in cases:
         obs = c05.run_unicast(case)
         sent = (case["src"], case["dst"], case["mtype"], obs["msg"])
+        sent_all = [sent] + ([(case["src"], case["dst"], case["second"][1], obs["msg2"])] if case.get("second") and "msg2" in obs else [])
         rep.case()
         rep.traces += 1
         rep.transitions += obs["npkts"]
@@ -383,14 +388,14 @@ def w_end_to_end(item, rep):
         bad = None
         for key, q in obs["queues"].items():
             for g in q:
-                if g != sent or key != case["dst"]:
+                if g not in sent_all or key != case["dst"]:
                     what = ("origin/type/destination" if g[3] == obs["msg"] else
                             ("shortened" if obs["msg"].startswith(g[3]) or len(g[3]) < len(obs["msg"]) else "content"))
                     bad = ("e2e:not-a-sent-message:%s:%s" % ("frag" if case["mlen"] > 24 else "single", what),
-                           "application of node %o dequeues from=%o to=%o type=%d len=%d; the only message sent was from=%o to=%o type=%d len=%d" % (
-                               key, g[0], g[1], g[2], len(g[3]), sent[0], sent[1], sent[2], len(obs["msg"])))
+                           "application of node %o dequeues from=%o to=%o type=%d len=%d, which is none of the message(s) sent: %s" % (
+                               key, g[0], g[1], g[2], len(g[3]), "; ".join("from=%o to=%o type=%d len=%d" % (x[0], x[1], x[2], len(x[3])) for x in sent_all)))
                     break
-            if q.count(sent) > 1:
+            if any(q.count(x) > 1 for x in sent_all):
                 bad = ("e2e:delivered-twice:%s" % ("frag" if case["mlen"] > 24 else "single"), "node %o dequeues the message %d times" % (key, q.count(sent)))
             if bad:
                 break
@@ -413,6 +418,19 @@ def e2e_items(tier, seed):
         for n, t in ((0, 65), (10, 127), (24, 1), (24, 191), (30, 65), (49, 1), (60, 127)):
             k += 1
             cases.append(dict(topo="chain", src=s_, dst=d_, mlen=n, mtype=t, frag=True, cost=0, lat=k % 3, api="send", seed=seed, id0=(k * 7919) & 0xFFFF))
+    # two fragmented messages in a row from one sender through a relay that loses any subset of the frames it forwards
+    # (the origin does not notice: types below 65 are not acknowledged end to end): what the destination's application
+    # gets is one of the two messages or nothing - never the head of one completed by the tail of the other
+    import itertools
+    for (l1, l2) in ((30, 40), (49, 30)) if tier == "quick" else ((30, 40), (49, 30), (30, 60), (72, 72)):
+        nfr = (l1 + 23) // 24 + (l2 + 23) // 24
+        for r_ in range(0, nfr + 1):
+            for lose in itertools.combinations(range(nfr), r_):
+                if tier == "quick" and r_ > 2 and nfr > 4:
+                    continue
+                k += 1
+                cases.append(dict(topo="chain", src=O("11"), dst=O("0"), mlen=l1, mtype=1, frag=True, cost=(0, 2)[k % 2], lat=k % 2, api="send", seed=seed,
+                                  id0=(k * 7919) & 0xFFFF, second=[l2, 1], lose=list(lose), lose_at=O("1")))
     return [(seed, cases[i:i + 6]) for i in range(0, len(cases), 6)]
 
 
@@ -434,7 +452,9 @@ def run(tier, seed, rep, only=None):
              "to the depth, per configuration (set of fragment streams); the queue's complete contents are drained from a deep "
              "copy after every event and every frame that newly became available is judged. The node part injects the same "
              "events as packets from a ghost PTX and calls the real update(). Non-trivial = transitions on which a frame became "
-             "available or was dequeued; distinct = distinct (configuration, outcome, messages handed out so far, frame header).",
+             "available or was dequeued; distinct = distinct (configuration, outcome, messages handed out so far, frame header). End-to-end part (threaded world, the "
+             "library's own sender): every fragment count over direct links, routed single frames and 2-3 fragments, and two fragmented messages in a row "
+             "through a relay that loses every subset (quick: up to 2 of 5) of the frames it forwards - nothing but a sent message may reach an application.",
         bounds=dict(depth_queue=dq, depth_node=dn,
                     configurations=[dict(part=c["part"], name=c["name"], streams=[(oct(s["sender"]), s["fid"], s["mtype"], s["n"]) for s in c["streams"]],
                                          strays=c["strays"]) for c in cfgs],
